@@ -14,7 +14,9 @@ KNOWN_CLASSES = {
     ('C01', 'panic_model_not_found'): 'C07-array-component-inline-items',
     ('C01', 'abort_stack_overflow'): 'C01-recursive-model-cycle',
     ('C16', 'abort_stack_overflow'): 'C01-recursive-model-cycle',
+    ('C01', 'synth_name_collision'): 'C06-synthesised-name-collision',
 }
+WF = {'t': 0, 'f': 0, 'x': 0, 'f_but_generated': 0}   # Spec/Wf.v hir_ok evaluated by the driver on every extracted table
 # classes of the compile oracle (harness/src/coracle.rs): files rustc is expected to reject -> open finding id
 COMPILE_CLASSES = {
     'input_type_without_display': 'C02-input-type-without-display',
@@ -31,11 +33,14 @@ def run_shard(args):
     return i
 
 
-def load(p):
+def load(p, wf=None):
     res = {}; files = {}
     for l in open(p):
         q = l.rstrip('\n').split(' ')
-        if len(q) >= 3 and q[1] == 'R':
+        if len(q) >= 3 and q[1] == 'W':
+            if wf is not None:
+                wf[q[0]] = q[2]
+        elif len(q) >= 3 and q[1] == 'R':
             res[q[0]] = q[2]
         elif len(q) >= 4 and q[1] == 'F':
             files[(q[0], bytes.fromhex(q[2]).decode())] = q[3]
@@ -50,6 +55,8 @@ def text_of(x):
 
 
 def emit_run(tier, seed, d):
+    for k in list(WF):
+        WF[k] = 0
     nshards = 16
     per = 40 if tier == 'quick' else 1200
     with ThreadPoolExecutor(16) as ex:
@@ -57,12 +64,21 @@ def emit_run(tier, seed, d):
     total = 0; files_equal = 0; nontriv = set(); feats = {}; samples = []; disagreements = []; findings = []
     for i in range(nshards):
         try:
-            ri, fi = load(f'{d}/eimpl_{i}.obs'); rm, fm = load(f'{d}/emodel_canon_{i}.obs')
+            wf = {}
+            ri, fi = load(f'{d}/eimpl_{i}.obs'); rm, fm = load(f'{d}/emodel_canon_{i}.obs', wf)
             cases = dict(l.split(' ', 1) for l in open(f'{d}/ecases_{i}.txt').read().split('\n') if l)
         except FileNotFoundError:
             disagreements.append({'what': f'shard {i} produced no output', 'err': open(f'{d}/eerr_{i}.txt').read()[-800:]})
             continue
         agree = {}
+        for cid, w in wf.items():
+            WF[w] = WF.get(w, 0) + 1
+            if w == 'f' and ri.get(cid) == 'ok':
+                WF['f_but_generated'] += 1
+            # C01_emission_total: where the hypotheses hold the model must produce the crate
+            if w == 't' and rm.get(cid) != 'ok' and len(disagreements) < 40:
+                disagreements.append({'case': cid, 'what': 'hir_ok holds but the model did not produce a crate (contradicts C01_emission_total: driver or extraction defect)',
+                                      'model': rm.get(cid), 'spec': dehex(cases.get(cid, ''))[:5000]})
         for cid in ri:
             a, b = ri[cid], rm.get(cid)
             na = 'ok' if a == 'ok' else a.split(':', 1)[-1]
@@ -225,7 +241,8 @@ def run(prop, tier, seed, extra_props=(), also_hir=False, compile_layer=False):
                evaluations=total, distinct_nontrivial=nontriv, files_compared_equal=files_equal,
                rule='corpus then generated (spec, config) pairs: specs as in the HIR engine (rich profile; every third shard wild), configs = service names of one or more words, 0-4 derive strings over simple/nested/padded/duplicate/un-tokenisable, examples on/off; every file of every emitted crate is compared with the predicted file; non-trivial = at least one feature fired; distinct by input text',
                samples=samples, feature_histogram=feats, disagreements_checked=len(disagreements), oracle_failures=len(oracle),
-               known_findings_seen={k: len(v) for k, v in known_seen.items()}, proof_problems=ps['problems'], hir_level=hir_part, compile_level=compile_part)
+               known_findings_seen={k: len(v) for k, v in known_seen.items()}, proof_problems=ps['problems'], hir_level=hir_part, compile_level=compile_part,
+               totality_hypotheses=dict(WF, note='Spec/Wf.v hir_ok (depth 60) evaluated on every table the model extracts: t = C01_emission_total applies, f = it does not (f_but_generated: the implementation produced a crate anyway), x = extraction itself returned an error'))
     write_evidence(prop, tier, seed, 'proof', cov, time.time() - t0, len(out.violations),
                    assumptions=['names and documentation are ASCII or UTF-8 text; trimming is modelled for ASCII white space'])
     return out.finish()
